@@ -751,7 +751,9 @@ package participle
 //@ func indirectType [C19]
 //@   requires t != nil
 //@   pure
-//@   ensures result != nil && uf("rtype_kind", "Int", result) != reflect.Ptr && uf("rtype_kind", "Int", result) != reflect.Slice
+//@   ensures result != nil
+//@   loop 1 invariant t != nil && start != nil && 0 <= i && i <= 65
+//@   loop 1 decreases 66 - i
 
 //@ func (*generatorContext).parseNegation [C19]
 //@   requires g != nil && g.typeNodes != nil
